@@ -620,6 +620,7 @@ class VariantBase(productmd.common.MetadataBase):
                 if variant in parents:
                     parent_uids = sorted([i.uid for i in parents])
                     raise ValueError("Dependency cycle detected; variant %s; parents: %s" % (variant.uid, parent_uids))
+            self._check_unique_uids(variant)
             new_variant = self.variants.setdefault(variant_id, variant)
             if new_variant != variant:
                 raise ValueError("Variant ID already exists: %s" % variant.id)
@@ -627,6 +628,32 @@ class VariantBase(productmd.common.MetadataBase):
             # a refused variant must not stay re-parented
             variant.parent = old_parent
             raise
+
+    def _check_unique_uids(self, variant):
+        # UIDs are unique in the whole forest, not only among siblings: a
+        # child 'Tools' of 'E' and a top-level variant 'E-Tools' share a UID
+        top = self
+        while getattr(top, "parent", None) is not None:
+            top = top.parent
+        forests = [top]
+        root = getattr(self._metadata, "variants", None)
+        if root is not None and root is not top:
+            forests.append(root)
+        known = {}
+        for forest in forests:
+            todo = [forest]
+            while todo:
+                item = todo.pop()
+                if hasattr(item, "uid"):
+                    known.setdefault(item.uid, []).append(item)
+                todo.extend(item.variants.values())
+        todo = [variant]
+        while todo:
+            item = todo.pop()
+            for other in known.get(item.uid, []):
+                if other is not item:
+                    raise ValueError("Variant UID already exists: %s" % item.uid)
+            todo.extend(item.variants.values())
 
     def _get_all_parents(self):
         result = [self]
